@@ -113,18 +113,18 @@ Section Idem.
   Variable elem : bytes.
   Variable aps : amap (list (attr_policy M)).
 
-  Hypothesis Hstyle : has_style_policies I p elem = false.
+  Hypothesis Hstyle : style_stable M U R I p elem.
   (* the policy does not itself allow any of the forced attributes on this element *)
-  Hypothesis Hforced : forall k v, forced_key k = true -> filter_attr I p elem aps false (k, v) = [].
+  Hypothesis Hforced : forall k v, forced_key k = true -> filter_attr I p elem aps (has_style_policies I p elem) (k, v) = [].
   (* the element's URL attribute carries no value pattern *)
-  Hypothesis Hurl : forall k v, url_attr_of elem = Some k -> filter_attr I p elem aps false (k, v) = [(k, v)].
+  Hypothesis Hurl : forall k v, url_attr_of elem = Some k -> filter_attr I p elem aps (has_style_policies I p elem) (k, v) = [(k, v)].
   Hypothesis Hrw : srcRewriter p = None.
   (* net/url: a value validURL returned is returned unchanged when validated again (hypothesis U5) *)
   Hypothesis Hstable : forall raw u, valid_url I p raw = Some u -> valid_url I p u = Some u.
   (* not an iframe under RequireSandboxOnIFrame (iframe is a raw-text element, outside C20's class) *)
   Hypothesis Hnosandbox : forall l, sandbox_pass p elem l = l.
 
-  Notation Fa := (filter_attr I p elem aps false).
+  Notation Fa := (filter_attr I p elem aps (has_style_policies I p elem)).
 
   Definition settled (a : attr) : Prop := nonforced a = true /\ Fa a = [a].
   Definition url_settled (a : attr) : Prop := settled a /\ url_pass_attr I p elem a = [a].
@@ -132,10 +132,9 @@ Section Idem.
   Lemma F_settled l : Forall settled (flat_map Fa l).
   Proof.
     apply Forall_forall. intros a Ha. apply in_flat_map in Ha as (a0 & _ & Ha).
-    destruct (filter_attr_cases M U R I p elem aps a0 Hstyle) as [E|E]; rewrite E in Ha; [|contradiction].
-    destruct Ha as [<-|[]]. split; [|exact E].
-    destruct (nonforced a0) eqn:En; [reflexivity|]. exfalso. unfold nonforced in En. apply negb_false_iff in En.
-    destruct a0 as [k v]. cbn [akey fst] in En. rewrite (Hforced k v En) in E. discriminate.
+    pose proof (filter_attr_kept M U R I p elem aps a0 a Hstyle Ha) as E. split; [|exact E].
+    destruct (nonforced a) eqn:En; [reflexivity|]. exfalso. unfold nonforced in En. apply negb_false_iff in En.
+    destruct a as [k v]. cbn [akey fst] in En. rewrite (Hforced k v En) in E. discriminate.
   Qed.
 
   Lemma U_settled l : Forall settled l -> Forall url_settled (flat_map (url_pass_attr I p elem) l).
@@ -183,7 +182,7 @@ Section Idem.
     | _ => match flat_map Fa attrs with [] => [] | _ => crossorigin_pass p elem (mid_passes (flat_map Fa attrs)) end
     end.
   Proof.
-    unfold sanitize_attrs, mid_passes. rewrite Hstyle. destruct attrs as [|a0 ar]; [reflexivity|].
+    unfold sanitize_attrs, mid_passes. destruct attrs as [|a0 ar]; [reflexivity|].
     destruct (flat_map Fa (a0 :: ar)) as [|c0 cl]; [reflexivity|]. apply Hnosandbox.
   Qed.
 
@@ -253,24 +252,31 @@ Section Decide.
     unfold forced_key. intros H. repeat (apply orb_true_iff in H as [H|H]); apply beqb_eq in H; subst k; cbn; auto.
   Qed.
 
-  Lemma forced_rejected_sound elem aps : has_style_policies I p elem = false -> forced_rejected_b aps = true ->
-    forall k v, forced_key k = true -> filter_attr I p elem aps false (k, v) = [].
+  Lemma forced_rejected_sound elem aps hsp : forced_rejected_b aps = true ->
+    forall k v, forced_key k = true -> filter_attr I p elem aps hsp (k, v) = [].
   Proof.
-    intros Hs Hb k v Hk. unfold forced_rejected_b in Hb. rewrite forallb_forall in Hb.
+    intros Hb k v Hk. unfold forced_rejected_b in Hb. rewrite forallb_forall in Hb.
     specialize (Hb k (forced_key_in k Hk)). apply andb_true_iff in Hb as [H1 H2]. apply negb_true_iff in H1, H2.
     unfold has_key in H1, H2. unfold filter_attr, rules_accept. cbn [akey fst].
-    assert (Hd : is_data_attribute k = false).
-    { unfold forced_key in Hk. repeat (apply orb_true_iff in Hk as [Hk|Hk]); apply beqb_eq in Hk; subst k; vm_compute; reflexivity. }
-    rewrite Hd, andb_false_r, andb_false_r.
+    assert (Hd : is_data_attribute k = false /\ key_is (B"style") (k, v) = false).
+    { unfold forced_key in Hk. repeat (apply orb_true_iff in Hk as [Hk|Hk]); apply beqb_eq in Hk; subst k; split; vm_compute; reflexivity. }
+    destruct Hd as [Hd Hsk]. rewrite Hd, Hsk, andb_false_r. cbn [andb].
     destruct (lookup k aps); [discriminate|]. destruct (lookup k (globalAttrs p)); [discriminate|]. reflexivity.
   Qed.
 
-  Lemma url_unpatterned_sound elem aps : has_style_policies I p elem = false -> url_unpatterned_b elem aps = true ->
-    forall k v, url_attr_of elem = Some k -> filter_attr I p elem aps false (k, v) = [(k, v)].
+  Lemma url_key_not_style elem k v : url_attr_of elem = Some k -> key_is (B"style") (k, v) = false.
   Proof.
-    intros Hs Hb k v Hk. unfold url_unpatterned_b in Hb. rewrite Hk in Hb.
+    unfold url_attr_of. destruct (mem elem href_elements); [intros H; inversion H; reflexivity|].
+    destruct (mem elem cite_elements); [intros H; inversion H; reflexivity|].
+    destruct (mem elem src_elements); [intros H; inversion H; reflexivity | discriminate].
+  Qed.
+
+  Lemma url_unpatterned_sound elem aps hsp : url_unpatterned_b elem aps = true ->
+    forall k v, url_attr_of elem = Some k -> filter_attr I p elem aps hsp (k, v) = [(k, v)].
+  Proof.
+    intros Hb k v Hk. unfold url_unpatterned_b in Hb. rewrite Hk in Hb.
     unfold filter_attr. destruct (allowDataAttributes p && is_data_attribute (akey (k, v))); [reflexivity|].
-    rewrite andb_false_r. unfold rules_accept. cbn [akey fst aval snd].
+    rewrite (url_key_not_style elem k v Hk). cbn [andb]. unfold rules_accept. cbn [akey fst aval snd].
     destruct (lookup k aps) as [l|]; [|discriminate].
     assert (E : existsb (rule_accepts I v) l = true).
     { apply existsb_exists in Hb as (ap & Hin & Hap). apply existsb_exists. exists ap. split; [exact Hin|]. destruct ap; [discriminate | reflexivity]. }
@@ -286,7 +292,7 @@ Section Decide.
   Hypothesis Hrw : srcRewriter p = None.
   Hypothesis Hstable : forall raw u, valid_url I p raw = Some u -> valid_url I p u = Some u.
 
-  Theorem elem_stable_sound elem aps a : has_style_policies I p elem = false -> elem_stable_b elem aps = true ->
+  Theorem elem_stable_sound elem aps a : style_stable M U R I p elem -> elem_stable_b elem aps = true ->
     clean_attrs I p elem (clean_attrs I p elem a aps) aps = clean_attrs I p elem a aps.
   Proof.
     intros Hs Hb. unfold elem_stable_b in Hb. destruct (linkable elem) eqn:El.
